@@ -61,7 +61,7 @@ func appendUint8NotEmptyAsString(fi *finfo, buf []byte, rv reflect.Value, addr u
 
 func iappendUint8(fi *finfo, buf []byte, rv reflect.Value, addr uintptr, safe bool) ([]byte, any, appendStatus) {
 	buf = append(buf, fi.jkey...)
-	buf = strconv.AppendUint(buf, uint64(rv.FieldByIndex(fi.index).Interface().(uint8)), 10)
+	buf = strconv.AppendUint(buf, uint64(uint8(rv.FieldByIndex(fi.index).Uint())), 10)
 
 	return buf, nil, aWrote
 }
@@ -69,14 +69,14 @@ func iappendUint8(fi *finfo, buf []byte, rv reflect.Value, addr uintptr, safe bo
 func iappendUint8AsString(fi *finfo, buf []byte, rv reflect.Value, addr uintptr, safe bool) ([]byte, any, appendStatus) {
 	buf = append(buf, fi.jkey...)
 	buf = append(buf, '"')
-	buf = strconv.AppendUint(buf, uint64(rv.FieldByIndex(fi.index).Interface().(uint8)), 10)
+	buf = strconv.AppendUint(buf, uint64(uint8(rv.FieldByIndex(fi.index).Uint())), 10)
 	buf = append(buf, '"')
 
 	return buf, nil, aWrote
 }
 
 func iappendUint8NotEmpty(fi *finfo, buf []byte, rv reflect.Value, addr uintptr, safe bool) ([]byte, any, appendStatus) {
-	v := rv.FieldByIndex(fi.index).Interface().(uint8)
+	v := uint8(rv.FieldByIndex(fi.index).Uint())
 	if v == 0 {
 		return buf, nil, aSkip
 	}
@@ -87,7 +87,7 @@ func iappendUint8NotEmpty(fi *finfo, buf []byte, rv reflect.Value, addr uintptr,
 }
 
 func iappendUint8NotEmptyAsString(fi *finfo, buf []byte, rv reflect.Value, addr uintptr, safe bool) ([]byte, any, appendStatus) {
-	v := rv.FieldByIndex(fi.index).Interface().(uint8)
+	v := uint8(rv.FieldByIndex(fi.index).Uint())
 	if v == 0 {
 		return buf, nil, aSkip
 	}
